@@ -41,6 +41,8 @@ var menu = []string{
 	"converters:tag/a=conv", "converters:tag/a=nope", "converters:tag/b=conv", "converters:tag/a=", "converters:tag/zz=conv",
 	// selections of two converters, a selection that names one converter twice, a known next to an unknown one
 	"converters:tag/a=conv,conv2", "converters:tag/a=conv,conv", "converters:tag/a=conv2,nope",
+	// a tag that carries a converter gets a definition that may not carry one (data filter); the selection is changed afterwards
+	"updtag:tag/a=cdata:foo", "converters:tag/a=conv2",
 }
 
 type caseIn struct {
